@@ -1296,7 +1296,7 @@ class ItemSpaceParent(ItemFactoryImpl, BaseNamespaceReferrer, HasFormula):
                     base = bs._impl
                 elif isinstance(bs, DynamicSpace):
                     base = bs._impl._dynbase
-                elif bases is None:
+                elif bs is None:
                     # Default
                     base = self._dynbase if self.is_dynamic() else self
                 else:
